@@ -89,7 +89,8 @@ static void lin_dense(int N, uint32_t p, VhRng& rng, int flavour) {
     std::vector<uint32_t> a(N), b(N), out(N);
     for (int i = 0; i < N; i++) { a[i] = flavour ? EXT[rng.below(8)] : rng.u32(); b[i] = flavour ? EXT[rng.below(8)] : rng.u32(); }
     for (int f = 0; f < 13; f++) {
-        for (int i = 0; i < N; i++) { A->coefsT[i] = (Torus32)a[i]; B->coefsT[i] = (Torus32)b[i]; R->coefsT[i] = (Torus32)a[i]; IA->coefs[i] = (int32_t)b[i]; IR->coefs[i] = (int32_t)a[i]; }
+        bool three = f == 0 || f == 2 || f == 4 || f == 6 || f == 8 || f == 9 || f == 11 || f == 12;       // result written from scratch: whatever the output object held before must not survive
+        for (int i = 0; i < N; i++) { A->coefsT[i] = (Torus32)a[i]; B->coefsT[i] = (Torus32)b[i]; R->coefsT[i] = (Torus32)(three ? ~a[i] ^ 0x5a5a5a5au : a[i]); IA->coefs[i] = (int32_t)b[i]; IR->coefs[i] = (int32_t)(three ? ~a[i] : a[i]); }
         const Torus32* o = R->coefsT;
         switch (f) {
             case 0: torusPolynomialAdd(R, A, B); break; case 1: torusPolynomialAddTo(R, B); break;
